@@ -140,6 +140,16 @@ def probe_cache(seed, n_cases, small=False):
             t = m.fit(case["reads"], read_counts=case["counts"])
             traces[thr] = (np.array(t.genotypes), np.array(t.llks))
         base = traces[-1]
+        if not big and len(case["reads"]):
+            # every recorded likelihood is the compiled, uncached likelihood of that step's genotype on these reads and counts
+            from mchap.assemble.likelihood import log_likelihood
+            for thr, (g, l) in traces.items():
+                for i in range(0, g.shape[1], max(1, g.shape[1] // 25)):
+                    want = log_likelihood(case["reads"], g[0, i], read_counts=case["counts"])
+                    out["llks_recomputed"] = out.get("llks_recomputed", 0) + 1
+                    if not (abs(l[0, i] - want) <= 1e-9 * max(1.0, abs(want))):
+                        out["mismatches"].append({"case": c, "threshold": thr, "kind": "trace_llk_not_the_likelihood", "step": i, "trace_llk": float(l[0, i]), "recomputed": float(want)})
+                        break
         for thr, (g, l) in traces.items():
             same = np.array_equal(g, base[0]) and np.allclose(l, base[1], rtol=1e-9, atol=1e-9, equal_nan=True)
             if not same:
